@@ -150,6 +150,7 @@ fn run(ctx: &Ctx) {
     let count = gen::exh_count(13, n);
     ctx.run_indexed("exh-bytes-x-rotated-configs", count * 4, |i| Some(Case { input: B(gen::exh_bytes(gen::SIGMA1, i / 4)), cfg: rotated_cfg(seed, i / 4, i % 4) }), check);
     let k = ctx.tier.pick(4, 5);
+    // (quick: 29^4 sequences x 4 configurations; thorough: 29^5 x 2)
     let tcount = gen::exh_count(gen::TOKENS.len() as u64, k);
     let per = ctx.tier.pick(4, 2);
     ctx.run_indexed("exh-tokens-x-rotated-configs", tcount * per, |i| Some(Case { input: B(gen::exh_tokens(gen::TOKENS, i / per)), cfg: rotated_cfg(seed, i / per, i % per) }), check);
@@ -158,9 +159,9 @@ fn run(ctx: &Ctx) {
     ctx.run_indexed("corpus-x-all-configs", corpus.len() as u64 * 128, |i| Some(Case { input: B(corpus[(i / 128) as usize].1.clone()), cfg: (i % 128) as u8 }), check);
     // proptest soup
     let strat = (gen::soup_strategy(14), 0u8..128).prop_map(|(input, cfg)| Case { input: B(input), cfg });
-    ctx.run_proptest("soup", ctx.tier.pick(200_000, 3_000_000), strat, check);
+    ctx.run_proptest("soup", ctx.tier.pick(1_000_000, 8_000_000), strat, check);
     // seeded mutations of corpus documents and of soups
-    let nm = ctx.tier.pick(300_000u64, 5_000_000);
+    let nm = ctx.tier.pick(1_000_000u64, 8_000_000);
     let small_corpus: Vec<&Vec<u8>> = corpus.iter().map(|c| &c.1).filter(|d| d.len() <= 4096).collect();
     ctx.run_indexed_mode(
         "mutated-corpus",
